@@ -1,5 +1,6 @@
 import TerwayModel.Proofs.Pool
 import TerwayModel.Model.Capacity
+import TerwayModel.Model.Factory
 /-
 C06 — the node pool stays within cloud quotas and never disposes what is in use.
 -/
@@ -205,5 +206,16 @@ theorem c06_pool_limit_is_type_quota (l : Capacity.Limits) (cfg : Capacity.Cfg) 
     · exfalso; apply hmulti; simp [h]
   refine ⟨?_, by simpa using hpos⟩
   simp [Capacity.poolConfig, heq]
+
+/-- **The pool is told which interface is the trunk and which are RDMA** (the flags behind "never deletes the trunk or an RDMA
+    interface"): whenever the cloud is asked at start-up, every interface gets exactly the flags of its type - also a second
+    Trunk-type interface besides the preferred one, also with trunking switched off -/
+theorem c06_attached_flags_are_types (trunking erdma tags : Bool) (preferred : Option Nat) (tys : List Factory.Ty)
+    (h : Factory.asksCloud trunking erdma tags preferred tys.length = true) (i : Nat) (hi : i < tys.length) :
+    (Factory.attached trunking erdma tags preferred tys)[i]? = some (decide (tys[i] = .trunk), decide (tys[i] = .rdma)) := by
+  unfold Factory.attached
+  simp [h, hi]
+
+example : Factory.attached false false true (some 0) [.trunk, .trunk, .rdma] = [(true, false), (true, false), (false, true)] := by decide
 
 end Terway.Props.C06
